@@ -160,16 +160,15 @@ def build(tier, seed, exclude):
                 return T.fail(lambda: f"modules {assigns}, caller changes {steps}: execution {n} ran in {got}, expected {want}")
         return len(envs) == len(wants)
     """
-    pre = ["0 <= i0 < 5 and 0 <= i1 < 5 and 0 <= j0 < 5 and 0 <= j1 < 5",
-           "_okv(c0) and _okv(c1) and _okv(v0) and _okv(v1)", "0 <= ti < 3"]
-    g.cond("h_lmod_env", "i0: int, i1: int, c0: str, c1: str, j0: int, j1: int, v0: str, v1: str, two: bool, dq: bool, ti: int, flag: bool",
-           pre, body, timeout=to)
+    g.cond("h_lmod_env", "i0: int, i1: int, c0: str, j0: int, j1: int, v0: str, two: bool, dq: bool",
+           ["0 <= i0 < 5 and 0 <= i1 < 5 and 0 <= j0 < 5 and 0 <= j1 < 5", "len(c0) <= 2 and len(v0) <= 2 and _okv(c0) and _okv(v0)"],
+           "c1, v1, ti, flag = '/root', 'b:c', 1, True\n" + body.replace("\n        ", "\n"), timeout=to * 3)
     g.cond("h_lmod_env_idx", "i0: int, i1: int, j0: int, j1: int, two: bool, dq: bool, flag: bool",
            ["0 <= i0 < 5 and 0 <= i1 < 5 and 0 <= j0 < 5 and 0 <= j1 < 5"],
            "c0, c1, v0, v1, ti = '/usr/bin', '/root', 'x:y', '', 0\n" + body.replace("\n        ", "\n"), timeout=to)
     # one module value / one caller value left symbolic, everything else fixed (the solver has to find the characters that matter)
     g.cond("h_lmod_value", "v0: str, dq: bool", ["_okv(v0)"],
-           "i0, i1, j0, j1, c0, c1, v1, two, ti, flag = 0, 1, 2, 0, '/usr/bin', '/root', '/opt/m/bin:/usr/bin', True, 0, False\n" + body.replace("\n        ", "\n"), timeout=to)
+           "i0, i1, j0, j1, c0, c1, v1, two, ti, flag = 0, 1, 2, 0, '/usr/bin', '/root', '/opt/m/bin:/usr/bin', True, 0, False\n" + body.replace("\n        ", "\n"), timeout=to * 3)
     g.cond("h_lmod_caller_value", "c0: str, i0: int, dq: bool", ["_okv(c0) and 0 <= i0 < 5"],
            "i1, j0, j1, c1, v0, v1, two, ti, flag = 1, 2, 0, '/root', 'x', '/opt/m/bin', True, 0, False\n" + body.replace("\n        ", "\n"), timeout=to)
     # histories: the caller's environment changes between executions with the same modules
